@@ -36,8 +36,7 @@ theorem Covers_iff_segment_prefix (c o : Bytes) (hc : Command.Valid c) (ho : Com
 /-- C15, on the regenerated `Parse`: it accepts exactly the grammar and returns its input -/
 theorem Parse_ok_iff (lower : Bytes → Bytes) (s : Bytes) :
     Gen.Command_Parse lower s = .ok s ↔ Command.parse lower s = .ok s := by
-  rw [Command_Parse_eq]
-  cases Command.parse lower s <;> simp [Except.mapError]
+  exact Command_Parse_ok_iff lower s s
 
 /-- C13, on the regenerated `glob.Match`: for a pattern `parseGlob` accepts it answers `true` exactly for the strings of
 the pattern's language, never panics, and its loops end -/
@@ -134,8 +133,7 @@ theorem verifyProofs_ok_iff_spec {S X : Type} (x : X) (args : Node) (undef : D) 
     Gen.Inv_verifyProofs g ds = .ok () ↔
       Chain.PrincipalSpec (toInv x args g) (ds.map (toDlg undef pol)) ∧
       Chain.CommandSpec (toInv x args g) (ds.map (toDlg undef pol)) := by
-  rw [Inv_verifyProofs_eq x args undef pol g ds hs hlen, ← Chain.verifyProofs_ok_iff]
-  cases Chain.verifyProofs (toInv x args g) (ds.map (toDlg undef pol)) <;> simp [Except.mapError]
+  exact Inv_verifyProofs_ok_iff_spec x args undef pol g ds hs hlen
 
 /-- C03, on the regenerated `verifyArgs` (with the model's statement evaluator for `matchStatement`): it returns nil
 EXACTLY when every statement of the policy of every loaded delegation admits the arguments — no delegation of the chain is
